@@ -235,7 +235,7 @@ pub fn flip_noop_options(case: &Case) -> Case {
         ];
         // request target in absolute form: the authority of the target is not an input of the signature (the Host
         // header is); for a third of the requests it repeats the first Host value, for a third it names another host
-        let hsel = crate::core::h64(&(&case.wire.uri, case.wire.headers.len(), case.wire.body.len(), "target"));
+        let hsel = crate::core::h64(&(&case.wire.uri, &case.wire.headers, case.wire.body.len(), "target"));
         if case.wire.uri.starts_with('/') && hsel % 3 != 2 {
             let authority = if hsel % 3 == 0 {
                 w.headers.iter().find(|(n, _)| n == "host").map(|(_, v)| String::from_utf8_lossy(v).trim().to_string())
@@ -249,7 +249,7 @@ pub fn flip_noop_options(case: &Case) -> Case {
                 }
             }
         }
-        let front = crate::core::h64(&(&case.wire.uri, case.wire.headers.len(), case.wire.body.len())) % 2 == 0;
+        let front = crate::core::h64(&(&case.wire.uri, &case.wire.headers, case.wire.body.len())) % 2 == 0;
         let mut pos = 0;
         for (n, v) in bystanders {
             if !c.wire.headers.iter().any(|(hn, _)| hn.eq_ignore_ascii_case(n)) {
